@@ -25,13 +25,20 @@ TOLERATED = ('test_on_ready_counter_is_synchronized', 'test_set_pdeathsig')
 
 
 def sh(cmd, cwd=None, env=None, timeout=1800):
-    try:
-        p = subprocess.run(cmd, shell=True, cwd=cwd, env=env, timeout=timeout,
-                           stdout=subprocess.PIPE, stderr=subprocess.STDOUT,
-                           start_new_session=True)
-        return p.returncode, p.stdout.decode(errors='replace')
-    except subprocess.TimeoutExpired as e:
-        return 124, (e.stdout or b'').decode(errors='replace') + '\nTIMEOUT'
+    # output goes to a file, not a pipe: pool workers orphaned by a demo or
+    # by the unit suite keep a pipe open and the read would never end
+    with tempfile.TemporaryFile() as out:
+        try:
+            p = subprocess.run(cmd, shell=True, cwd=cwd, env=env,
+                               timeout=timeout, stdout=out,
+                               stderr=subprocess.STDOUT,
+                               stdin=subprocess.DEVNULL,
+                               start_new_session=True)
+            rc, tail = p.returncode, ''
+        except subprocess.TimeoutExpired:
+            rc, tail = 124, '\nTIMEOUT'
+        out.seek(0)
+        return rc, out.read().decode(errors='replace') + tail
 
 
 def main():
